@@ -30,8 +30,8 @@ func init() {
 			ruleSelectLogsWindow(r)
 			ruleMergeIter(r) // windows are filled from a time-ordered sample stream (fillWindow stops at the first sample after the window)
 			ruleMapCopyWriteBack(r, []string{metricPkg, enginePkg}, 2)
-			ruleOpenLog(r) // the lower edge of the first window: since/until as the daemon reads them
-			ruleSampleLabelSet(r)      // a series in the window keeps the labels of its own samples
+			ruleOpenLog(r)        // the lower edge of the first window: since/until as the daemon reads them
+			ruleSampleLabelSet(r) // a series in the window keeps the labels of its own samples
 			ruleIsInstant(r)
 		},
 	})
